@@ -35,6 +35,8 @@ class Baton:
         self.switch_at = {}
         self.errors = []
         self.lock_timeout = 20
+        self.watch = ()
+        self.watched = []
 
     def pass_to(self, me, other):
         self.sems[other].release()
@@ -59,6 +61,13 @@ def make_tracer(baton, me, granularity):
 
     def tick(frame):
         baton.events += 1
+        if baton.watch:
+            f, depth = frame, 0
+            while f is not None and depth < 8:
+                if f.f_code.co_name in baton.watch:
+                    baton.watched.append(baton.events)
+                    break
+                f, depth = f.f_back, depth + 1
         tgt = baton.switch_at.get(baton.events)
         if tgt is not None and tgt != me and not baton.done[tgt]:
             baton.pass_to(me, tgt)
@@ -74,10 +83,24 @@ def make_tracer(baton, me, granularity):
     return tracer
 
 
-def run_schedule(fns, switch_at, granularity="call"):
+WATCHED = []
+
+
+def memo_writers():
+    """Function names that write the shared memo cells, from the generated table."""
+    import re
+    path = os.path.join(common.LEAN_DIR, "SudsModel", "Gen", "Tables.lean")
+    m = re.search(r"def sharedMemoWrites[^\n]*:= \[(.*)\]", open(path).read())
+    return tuple(sorted(set(x.split(".")[-1] for x in re.findall(r'\("([^"]+)",', m.group(1))))) if m else ()
+
+
+def run_schedule(fns, switch_at, granularity="call", watch=()):
     """Run fns[i] in thread i; thread 0 starts. switch_at: {global event number: thread to hand the baton to}."""
     n = len(fns)
     baton = Baton(n)
+    baton.watch = watch
+    global WATCHED
+    WATCHED = baton.watched
     baton.switch_at = dict(switch_at)
     results = [None] * n
 
@@ -114,7 +137,7 @@ def echo_reply(style):
         m = re.search(rb"<(?:\w+:)?a[^>]*>([^<]*)</", request.message)
         arg = m.group(1).decode() if m else "?"
         if style == "document":
-            body = '<fResponse xmlns="%s"><r>echo-%s</r></fResponse>' % (wsdlkit.TNS, arg)
+            body = '<fResponse xmlns="%s"><r>echo-%s</r><n>%d</n></fResponse>' % (wsdlkit.TNS, arg, len(arg))
             extra = ""
         elif style == "rpc":
             body = '<m:fResponse xmlns:m="%s"><return>echo-%s</return></m:fResponse>' % (wsdlkit.TNS, arg)
@@ -133,7 +156,7 @@ def make_client(style):
     if style == "document":
         schema = ('<xsd:element name="f"><xsd:complexType><xsd:sequence><xsd:element name="a" type="xsd:string"/>'
                   '</xsd:sequence></xsd:complexType></xsd:element><xsd:element name="fResponse"><xsd:complexType>'
-                  '<xsd:sequence><xsd:element name="r" type="xsd:string"/></xsd:sequence></xsd:complexType></xsd:element>')
+                  '<xsd:sequence><xsd:element name="r" type="xsd:string"/><xsd:element name="n" type="xsd:int"/></xsd:sequence></xsd:complexType></xsd:element>')
         w = wsdlkit.wsdl_doc(schema, "f", "fResponse")
     elif style == "rpc":
         w = wsdlkit.wsdl_doc("", style="rpc", in_parts=[("a", "type", "xsd:string")], out_parts=[("return", "type", "xsd:string")])
@@ -154,7 +177,11 @@ def clone_and_call(client, arg):
     def fn():
         c2 = client.clone()
         c2.set_options(faults=False)
-        st, r = c2.service.f(arg)
+        out = c2.service.f(arg)
+        if not (isinstance(out, tuple) and len(out) == 2):
+            # faults=False makes every invocation return (status, value): the clone's own option was not used
+            return ["clone-option-ignored", c18.canon(out)]
+        st, r = out
         same_wsdl = c2.wsdl is client.wsdl
         return [st, c18.canon(r), same_wsdl, c2.options.faults, client.options.faults, c2.messages is not client.messages]
     return fn
@@ -201,6 +228,11 @@ def run(ctx):
         for arg in ("AAAA", "BB"):
             ref[arg] = call(client, arg)()
         refclone = clone_and_call(client, "BB")()
+        ctx.case(("clone-sequential", style), True)
+        if refclone[0] != 200 or refclone[3] is not False or refclone[4] is not True or not refclone[2]:
+            ctx.fail("a clone's invocation does not run under the clone's own options (or the parent's changed)",
+                     {"style": style, "scenario": "clone-sequential"}, refclone,
+                     [200, ref["BB"], True, False, True, True])
         # shared state: only memo cells may change during invocations
         fp0 = shared_fingerprint(client)
         for _ in range(3):
@@ -236,6 +268,25 @@ def run(ctx):
                 if len(tr.sent) != 2 or not any(b"AAAA" in m for m in sent) or not any(b">BB<" in m for m in sent):
                     ctx.fail("requests sent do not carry each call's own arguments", meta,
                              [m[-120:].decode("utf-8", "replace") for m in sent], "one request per call with its argument")
+        # cold start: a freshly loaded WSDL per interleaving, so the memo cells are filled *during* the race
+        cold, ctr = make_client(style)
+        run_schedule([call(cold, "AAAA"), call(cold, "BB")], {}, watch=memo_writers())
+        inside = list(WATCHED)     # events at which a memo cell of the shared schema is being filled
+        ctx.dist["cold memo-fill events:" + style] += len(inside)
+        step = max(1, len(inside) // ctx.pick(80, 100000))
+        for k in sorted(set(points[::ctx.pick(3, 1)]) | set(inside[::step])):
+            cold, ctr = make_client(style)
+            res, nev, errs = run_schedule([call(cold, "AAAA"), call(cold, "BB")], {k: 1})
+            meta = {"style": style, "scenario": "cold-two-calls", "preempt_after_event": k}
+            ctx.case(common.canon(meta), True)
+            ctx.dist["schedule:" + style + "/cold"] += 1
+            if errs:
+                ctx.fail("scheduler problem (deadlock between paused threads)", meta, errs, "both calls finish")
+                continue
+            got = [r[1] if r and r[0] == "ok" else r for r in res]
+            if got != [ref["AAAA"], ref["BB"]]:
+                ctx.fail("a call failed or returned another call's data under this interleaving", meta, got,
+                         [ref["AAAA"], ref["BB"]])
         # random multi-preemption schedules at line granularity, 2..4 threads
         for _ in range(ctx.pick(60, 3000)):
             n = rng.randint(2, 4)
@@ -280,6 +331,9 @@ def replay(ctx, payload):
         if m["scenario"] == "call+clone":
             ref[1] = clone_and_call(client, "BB")()
             fns = [call(client, "AAAA"), clone_and_call(client, "BB")]
+        elif m["scenario"] == "cold-two-calls":
+            cold, _tr = make_client(m["style"])
+            fns = [call(cold, "AAAA"), call(cold, "BB")]
         else:
             fns = [call(client, "AAAA"), call(client, "BB")]
         res, nev, errs = run_schedule(fns, {m["preempt_after_event"]: 1})
